@@ -194,6 +194,7 @@ Definition fref_eqb (a b : fref) : bool :=
   | FPath p, FPath q => N.eqb p q
   | FAnon c o, FAnon c' o' => str_eqb c c' && N.eqb o o'
   | FAnonDirty, FAnonDirty => true
+  | FPipe, FPipe => true
   | _, _ => false
   end.
 
@@ -229,7 +230,17 @@ Fixpoint ren_get (m : list (N * N)) (x : N) : option N :=
 
 Definition ren_has_image (m : list (N * N)) (y : N) : bool := existsb (fun p : N * N => N.eqb (snd p) y) m.
 
-Definition match_fd (before seen : obs) (u : ust) (fd : N) (m : option (list (N * N)))
+(* same attributes, except for the text of an unnamed file (a diagnostic
+   message may have been written to it) *)
+Definition ofd_similar (a b : ofd) : bool :=
+  match o_file a, o_file b with
+  | FAnon _ _, FAnon _ _ =>
+      Bool.eqb (o_r a) (o_r b) && Bool.eqb (o_w a) (o_w b) && Bool.eqb (o_app a) (o_app b)
+  | _, _ => ofd_eqb a b
+  end.
+
+(* [blur]: the observed description that received a diagnostic message, if any *)
+Definition match_fd (blur : option N) (before seen : obs) (u : ust) (fd : N) (m : option (list (N * N)))
   : option (list (N * N)) :=
   match m with
   | None => None
@@ -246,7 +257,10 @@ Definition match_fd (before seen : obs) (u : ust) (fd : N) (m : option (list (N 
                 if ren_has_image m y then None
                 else
                   match ofd_get (u_new u) x, ofd_get (ob_ofd seen) y with
-                  | Some a, Some b => if ofd_eqb a b then Some ((x, y) :: m) else None
+                  | Some a, Some b =>
+                      if ofd_eqb a b
+                         || (match blur with Some z => N.eqb z y | None => false end && ofd_similar a b)
+                      then Some ((x, y) :: m) else None
                   | _, _ => None
                   end
             end
@@ -254,18 +268,37 @@ Definition match_fd (before seen : obs) (u : ust) (fd : N) (m : option (list (N 
       end
   end.
 
-Definition meaning_ok (before seen : obs) (tg : list N) (u : ust) : bool :=
-  match fold_right (match_fd before seen u) (Some [])
+Definition meaning_ok_blur (blur : option N) (before seen : obs) (tg : list N) (u : ust) : bool :=
+  match fold_right (match_fd blur before seen u) (Some [])
           (keys (ob_tab before) ++ keys (ob_tab seen) ++ tg) with
   | Some _ => true
   | None => false
   end.
 
+Definition meaning_ok := meaning_ok_blur None.
+
 (* F: the files are what the specification says (created, truncated, otherwise
-   untouched) *)
-Definition files_ok (seen : obs) (u : ust) : bool :=
+   untouched); [skip]: the file that received a diagnostic message, if any *)
+Definition files_ok_skip (skip : option N) (seen : obs) (u : ust) : bool :=
   forallb (fun p : N * option fnode =>
-             option_eqb fnode_eqb (snd p) (fs_get (u_fs u) (fst p))) (ob_fs seen).
+             match skip with Some k => N.eqb k (fst p) | None => false end
+             || option_eqb fnode_eqb (snd p) (fs_get (u_fs u) (fst p))) (ob_fs seen).
+
+Definition files_ok := files_ok_skip None.
+
+(* the description on descriptor 2, where diagnostic messages go, and the file
+   it is open on *)
+Definition stderr_ofd (o : obs) : option N :=
+  match lookup (ob_tab o) 2 with Some e => Some (e_ofd e) | None => None end.
+
+Definition stderr_path (o : obs) : option N :=
+  match stderr_ofd o with
+  | Some id => match ofd_get (ob_ofd o) id with
+               | Some a => match o_file a with FPath k => Some k | _ => None end
+               | None => None
+               end
+  | None => None
+  end.
 
 (* POSIX leaves descriptors 0..9 to the user; what happens with a larger
    number as target or source is the implementation's business (yash-rs refuses
@@ -280,22 +313,28 @@ Definition portable (rs : list redir) : bool :=
    runs).  [ref] is the observation the table must be restored to: the one made
    just before the command - or, when the shell exits from inside compound
    commands, the one made before the outermost of them. *)
+(* does the command keep its redirections?  exec does when they succeed (then
+   the shell goes on); so does exec with an operand that cannot be invoked - an
+   interactive shell then goes on, any other shell exits with them in place *)
+Definition persists (ref : obs) (c : cmd) (st : step) : bool :=
+  match c_kind c with
+  | KExec | KExecFail true => negb (st_exit st)
+  | KExecFail false => negb (restored (ob_tab ref) (ob_tab (st_after st)))
+  | _ => false
+  end.
+
 Definition oracle_table (ref before : obs) (c : cmd) (st : step) : option N :=
   let tg := targets (c_redirs c) in
   let after := st_after st in
-  let persists :=
-    match c_kind c with KExec => negb (st_exit st) | _ => false end in
-  if negb persists && negb (restored (ob_tab ref) (ob_tab after)) then Some 0%N
-  else if persists && negb (persisted_ok tg (ob_tab before) (ob_tab after)) then Some 1%N
+  if negb (persists ref c st) && negb (restored (ob_tab ref) (ob_tab after)) then Some 0%N
+  else if persists ref c st && negb (persisted_ok tg (ob_tab before) (ob_tab after)) then Some 1%N
   else None.
 
-Definition oracle_seen (nc : bool) (lim : option N) (before : obs) (c : cmd) (st : step)
+Definition oracle_seen (nc : bool) (lim : option N) (ref before : obs) (c : cmd) (st : step)
   : option N :=
   let tg := targets (c_redirs c) in
   let after := st_after st in
   let sp := spec_of_obs nc before (c_redirs c) in
-  let persists :=
-    match c_kind c with KExec => negb (st_exit st) | _ => false end in
   match st_inside st with
   | Some inside =>
       if negb (internal_ok tg (ob_tab before) (ob_tab inside)) then Some 2%N
@@ -308,29 +347,62 @@ Definition oracle_seen (nc : bool) (lim : option N) (before : obs) (c : cmd) (st
             else None
         end
   | None =>
-      if persists then
+      if persists ref c st then
+        (* a failed exec has reported "cannot execute" on descriptor 2, with the
+           redirections in effect *)
+        let msg := match c_kind c with KExecFail _ => true | _ => false end in
         match sp with
         | None => Some 3%N
         | Some u =>
-            if negb (meaning_ok before after tg u) then Some 4%N
-            else if negb (files_ok after u) then Some 5%N
+            if negb (meaning_ok_blur (if msg then stderr_ofd after else None) before after tg u) then Some 4%N
+            else if negb (files_ok_skip (if msg then stderr_path after else None) after u) then Some 5%N
             else None
         end
       else
         (* the body did not run (or cannot be observed: empty command,
            command not found) *)
         match c_kind c, sp, lim with
-        | (KRegular | KSpecial | KFunction | KGroup | KSubshell | KExec), Some _, None =>
+        | (KRegular | KSpecial | KFunction | KGroup | KSubshell | KExec | KExecFail true), Some _, None =>
             if portable (c_redirs c) then Some 6%N else None
+        | KExecFail false, Some u, None =>
+            (* the shell exited with a table equal to the one before: fine if
+               that is what the redirections amount to (not judged when the
+               exit unwinds enclosing compound commands: ref is then another
+               table) *)
+            if portable (c_redirs c) && restored (ob_tab ref) (ob_tab before)
+               && negb (meaning_ok_blur (stderr_ofd after) before after tg u) then Some 6%N else None
         | KEmpty, Some u, None =>
             if portable (c_redirs c) && negb (files_ok after u) then Some 5%N else None
         | _, _, _ => None
         end
   end.
 
+(* ---- what a child process started for a pipe sees ----------------------------- *)
+
+(* descriptor fd of the child is a new description, one end of a pipe *)
+Definition pipe_end_ok (before child : obs) (fd : N) (writing : bool) : bool :=
+  match lookup (ob_tab child) fd with
+  | Some e =>
+      negb (e_cx e) && N.ltb (max_id before) (e_ofd e)
+      && match ofd_get (ob_ofd child) (e_ofd e) with
+         | Some o => ofd_eqb o (mkOfd FPipe (negb writing) writing false)
+         | None => false
+         end
+  | None => false
+  end.
+
+(* the child's table is the parent's, except for the standard descriptors the
+   pipe ends were moved to: no other end of any pipe is inherited *)
+Definition child_ok (before child : obs) (stdin_piped stdout_piped : bool) : bool :=
+  forallb (fun fd =>
+    if N.eqb fd 0 && stdin_piped then pipe_end_ok before child 0 false
+    else if N.eqb fd 1 && stdout_piped then pipe_end_ok before child 1 true
+    else ent_opt_eqb (lookup (ob_tab before) fd) (lookup (ob_tab child) fd))
+    (0 :: 1 :: keys (ob_tab before) ++ keys (ob_tab child))%N.
+
 Definition oracle_cmd (nc : bool) (lim : option N) (ref before : obs) (c : cmd) (st : step)
   : option N :=
   match oracle_table ref before c st with
   | Some k => Some k
-  | None => oracle_seen nc lim before c st
+  | None => oracle_seen nc lim ref before c st
   end.
